@@ -39,6 +39,11 @@ CHECKS = {
    technique="deterministic simulation: simulator-owned ChainReader gates every batch-verification worker (seeded completion order, worker count, abort point), fake clock for the future-block rule, Byzantine header mutation judged by an independent reference implementation of the rules",
    text="(a) Schedule: the real VerifyHeaders worker pool runs with each worker parked in its chain lookup; the simulator decides completion order, GOMAXPROCS (1/2/4/16), when results are read and when abort closes; for every schedule the results must match one-by-one VerifyHeader up to and including the first failure and no goroutine may remain. (b) Clock: header times are placed at now+13..+31 s of the fake clock. (c) Rules: VerifyHeader / VerifyUncles verdicts on boundary-lattice candidates around every fork height of the built-in and random schedules must equal a stand-alone reference (literal constants: divisors, minima, duration limits, reset blocks, 32-byte extra, 5000 / parent/1024 / 2^63-1 gas bounds).",
    note="Trusted: synctest, harness, the reference rules (written from the statement; constants are literals, not imports). Fork schedules are prefix-closed and strictly ascending (the protocol fixes nothing for coinciding heights). Uncle-set rules beyond the individual uncle header and the InsertChain-level future-block queue are not yet covered."),
+
+ "C15": dict(engine="chainsim+schedsim", category="exploration", design_ref="§3 C15",
+   technique="deterministic simulation: seeded tx-pool operation histories on a real node with head changes and reorganisations, fake clock, simulator-controlled timing of the pool's reset (yield point, adopted loop goroutine); invariants recomputed independently at every rest point",
+   text="At every rest point (pool caught up with the chain head) the pending set is recomputed from Pending()/Content() and the head state: per sender a gap-free nonce run from the chain nonce, each transaction affordable and within the block gas limit, one transaction per (sender, nonce) across pending and queue, virtual nonce = chain nonce + pending count; a same-nonce replacement is accepted only with the configured bump; per-account and pool-wide limits hold for senders never used as local, judged where the pool runs its limiter (for the submitting accounts after an accepted submission, for everyone after a head change); after a reorganisation every dropped transaction that is still valid is pooled again (judged under roomy limits).",
+   note="Trusted: synctest, harness. Every public pool method holds pool.mu for its whole body, so caller interleavings are exactly the listed orders; the one asynchronous actor (the loop's head-event handler) is scheduled explicitly. The miner worker is not part of this check. One known finding is filtered by its specific signature."),
 }
 
 def main():
